@@ -39,7 +39,7 @@ def cases(tier, seed):
         out.append((sc + "/shipped", c))
     # (2) adversaries
     adv_base = [x for k, x in enumerate(base)
-                if tier == "thorough" or k % 7 == 0]
+                if (tier == "thorough" and k % 6 == 0) or k % 7 == 0]
     for sc, c in adv_base:
         for alg in ({"kind": "advqueue", "budget": 1},
                     {"kind": "advbatch", "p": 2, "min": 1, "budget": 1},
